@@ -86,3 +86,42 @@ func VT_C10_BusCancel() {
 	vt.NoLeak()
 	vt.Reach("done")
 }
+
+// A listener that registers while a Send is cleaning up after a cancelled listener stays registered:
+// an event sent after both have finished reaches it exactly once.
+func VT_C10_ListenDuringCleanup() {
+	var b Bus
+	gctx, gcancel := context.WithCancel(context.Background())
+	_ = b.Listen(gctx)
+	gcancel() // a cancelled listener that has not been collected yet
+	e1, e2 := vt.Msg("e1"), vt.Msg("e2")
+	vt.Assume(vt.MsgID(e1) != vt.MsgID(e2))
+	ctx, cancel := context.WithCancel(context.Background())
+	var ch <-chan any
+	var wg sync.WaitGroup
+	wg.Add(2)
+	go func() { defer wg.Done(); b.Send(context.Background(), e1) }() // notices the cancelled listener and cleans up
+	got := make(chan int64, 4)
+	go func() {
+		defer wg.Done()
+		ch = b.Listen(ctx)
+		go func() {
+			for e := range ch {
+				got <- vt.MsgID(e.(proto.Message))
+			}
+			close(got)
+		}()
+	}()
+	wg.Wait()
+	ok := b.Send(context.Background(), e2)
+	vt.Assert(ok, "send-reports-ok")
+	cancel()
+	n2 := 0
+	for id := range got {
+		if id == vt.MsgID(e2) {
+			n2++
+		}
+	}
+	vt.Assert(n2 == 1, "listener-registered-during-cleanup-receives-later-events-exactly-once")
+	vt.Reach("done")
+}
